@@ -757,8 +757,11 @@ static int aaf_talker_recv_pdu(int fd_sk, int fd_timer)
     if (res < 0)
         return -1;
 
-    /* Arm the timer for the first time to start sending AAF stream. */
-    if (first_aaf_pdu) {
+    /* Arm the timer for the first time to start sending AAF stream. This
+     * needs a recovered media clock timestamp: a CRF PDU that was dropped or
+     * carried only stale timestamps leaves the queue empty.
+     */
+    if (first_aaf_pdu && !STAILQ_EMPTY(&mclk_timestamps)) {
         struct itimerspec itspec = { 0 };
         uint64_t ts = mclk_dequeue_ts();
 
@@ -780,7 +783,7 @@ static int aaf_talker_recv_pdu(int fd_sk, int fd_timer)
 
 static int aaf_listener_recv_pdu(int fd)
 {
-    int res;
+    int res = 0;
     ssize_t n;
     uint32_t val;
     void *pdu = alloca(MAX_PDU_SIZE);
